@@ -14,7 +14,7 @@ RULE = (
     "existing position (flat/long/short), amount of either sign (tiny..huge relative to one unit, exact specials: 0, -value, one-unit cost +-eps), "
     "spread, commission spec in the stated domain (non-decreasing, one-unit cost+half-spread < 0.9 x unit price), integer or fractional mode; "
     "oracle = independent cost function + bisection for the maximal whole quantity. allocate_nested: the same with the security under a sub-strategy that has a commission schedule of its own "
-    "(set on it alone, or after a different schedule was pushed from the top): sizing and charging use the schedule of the security's own parent. non-trivial = a trade happened with a non-zero fee or spread; "
+    "(set on it alone, or after a different schedule was pushed from the top): sizing and charging use the schedule of the security's own parent. refuse: allocate at a missing or zero price raises and changes nothing - on a fresh security, on one quoted the date before, and on one held and closed the date before. non-trivial = a trade happened with a non-zero fee or spread; "
     "distinct = distinct spec hashes."
 )
 ASSUMPTIONS = ["cost(0) = 0 (no trade, no fee)", "fractional equality tolerance 2e-8 + 1e-9|amount| (+1e-12 relative on the cost terms)"]
@@ -27,6 +27,9 @@ def setup(bt, spec):
     sec = bt.core.Security("x", multiplier=m)
     p = spec["price"]
     data = pd.DataFrame({"x": [np.nan if p is None else float(p)] * 2}, index=[D0, D1])
+    if spec.get("price0") is not None:
+        # quoted on the first date, the price under test (missing or zero) only on the second
+        data.loc[D0, "x"] = float(spec["price0"])
     kw = {}
     if spec.get("spread") is not None:
         kw["bidoffer"] = pd.DataFrame({"x": [float(spec["spread"])] * 2}, index=[D0, D1])
@@ -230,16 +233,29 @@ def case_refuse(ctx, spec):
     """trade at a missing or zero price is refused with an error and changes nothing"""
     bt = ctx.bt
     s, sec, fee = setup(bt, spec)
+    now = D0
+    hist = "fresh"
+    if spec.get("price0") is not None:
+        # the security was quoted (and possibly held and closed again) on the date before: what it knew then must not stand in for today's quote
+        hist = "quoted_before"
+        if spec.get("round_trip"):
+            hist = "held_and_closed_before"
+            sec.transact(spec["round_trip"])
+            s.update(D0)
+            sec.transact(-spec["round_trip"])
+            s.update(D0)
+        s.update(D1)
+        now = D1
     cap0 = s.capital
     amount = spec["amount"]
     try:
         sec.allocate(amount)
     except Exception:
-        s.update(D0)
+        s.update(now)
         if sec.position != 0 or s.capital != cap0:
             raise Violation("refused allocate still changed state: pos=%r dcap=%r" % (sec.position, s.capital - cap0), signature="refuse-partial")
-        return {"nontrivial": True, "labels": ["refused:" + ("nan" if spec["price"] is None else "zero")]}
-    raise Violation("allocate(%r) at price %r did not raise (position now %r)" % (amount, spec["price"], sec.position), signature="no-refusal")
+        return {"nontrivial": True, "labels": ["refused:" + ("nan" if spec["price"] is None else "zero"), hist]}
+    raise Violation("allocate(%r) at price %r (%s) did not raise (position now %r)" % (amount, spec["price"], hist, sec.position), signature="no-refusal")
 
 
 # --------------------------------------------------------------------------- generators
@@ -337,6 +353,8 @@ def refuse_spec(draw):
         "fee": {"kind": draw(st.sampled_from(["none", "fixed"])), "f": 1.0},
         "pos0": 0,
         "amount": draw(st.sampled_from([1.0, -1.0, 1000.0, -250.5, 1e-3])) * draw(st.sampled_from([1, 1, 100])),
+        "price0": draw(st.sampled_from([None, 10.0, 101.3])),
+        "round_trip": draw(st.sampled_from([None, 5.0, -3.0])),
     }
 
 
